@@ -4,7 +4,9 @@ package remoting
 
 import (
 	"errors"
+	"io"
 	"net"
+	"sync"
 	"time"
 
 	"github.com/kercylan98/vivid"
@@ -114,4 +116,108 @@ func VH_C14_send_redial() {
 		wrote2 += len(c.frames)
 	}
 	vrtAssert(wrote2 == wrote+1, "recovers-once-the-peer-is-reachable-again")
+}
+
+// ---------------------------------------------------------------------------
+// C11: connection establishment. Two ends of an in-memory duplex link whose
+// Read returns EVERYTHING that has arrived so far in one call (maximal
+// coalescing) and blocks while nothing has arrived; the real dialler-side and
+// acceptor-side connection actors run on two goroutines in preemptive mode.
+
+type vhPipeEnd struct {
+	vhConn
+	in      chan []byte
+	peer    *vhPipeEnd
+	pending []byte
+	eof     bool
+}
+
+func vhNewPipe() (*vhPipeEnd, *vhPipeEnd) {
+	a := &vhPipeEnd{vhConn: vhConn{cut: -1}, in: make(chan []byte, 32)}
+	b := &vhPipeEnd{vhConn: vhConn{cut: -1}, in: make(chan []byte, 32)}
+	a.peer, b.peer = b, a
+	return a, b
+}
+
+func (c *vhPipeEnd) Write(p []byte) (int, error) {
+	c.peer.in <- append([]byte{}, p...)
+	return len(p), nil
+}
+
+func (c *vhPipeEnd) CloseWrite() { close(c.peer.in) }
+
+func (c *vhPipeEnd) Read(p []byte) (int, error) {
+	if len(c.pending) == 0 && !c.eof {
+		b, ok := <-c.in
+		if !ok {
+			c.eof = true
+		} else {
+			c.pending = b
+		}
+	}
+	for !c.eof {
+		more := false
+		select {
+		case b, ok := <-c.in:
+			if !ok {
+				c.eof = true
+			} else {
+				c.pending = append(c.pending, b...)
+				more = true
+			}
+		default:
+		}
+		if !more {
+			break
+		}
+	}
+	if len(c.pending) == 0 {
+		return 0, io.EOF
+	}
+	n := copy(p, c.pending)
+	c.pending = c.pending[n:]
+	return n, nil
+}
+
+// VH_C11_first_frames_after_handshake: the dialler establishes a connection
+// (real handshake) and immediately sends two frames; the acceptor runs its real
+// handshake and then the real read loop. Whatever the interleaving and however
+// the link coalesces, both frames are delivered, in order.
+func VH_C11_first_frames_after_handshake() {
+	dial, acc := vhNewPipe()
+	b1 := []byte{1, vrtUint8()}
+	b2 := []byte{2, vrtUint8()}
+	h := &vhHandler{}
+	var wg sync.WaitGroup
+	var dialErr, accErr error
+	wg.Add(2)
+	go func() {
+		defer wg.Done()
+		_, dialErr = newTCPConnectionActor(true, dial, "srv:1", vhFrameCodec{}, &vhHandler{})
+		if dialErr == nil {
+			_, _ = dial.Write(vhFrame(b1, false))
+			_, _ = dial.Write(vhFrame(b2, false))
+		}
+		dial.CloseWrite()
+	}()
+	go func() {
+		defer wg.Done()
+		var c *tcpConnectionActor
+		c, accErr = newTCPConnectionActor(false, acc, "srv:1", vhFrameCodec{}, h)
+		if accErr != nil {
+			return
+		}
+		ctx := &vhCtx{ref: &vhRef{"l:1", "/conn"}, stream: &vhStream{}}
+		vhDrive(c, ctx, 16)
+	}()
+	wg.Wait()
+	vrtAssert(dialErr == nil && accErr == nil, "handshake-completes")
+	vrtAssert(len(h.got) == 2, "every-frame-delivered")
+	for i, want := range [][]byte{b1, b2} {
+		if i < len(h.got) {
+			g, ok := h.got[i].msg.(*vhBody)
+			vrtAssert(ok && len(g.B) == 2 && g.B[0] == want[0] && g.B[1] == want[1], "delivered-intact-in-order")
+		}
+	}
+	vrtReach("established-and-delivered")
 }
